@@ -9,23 +9,46 @@ package stat
 //
 // Observation: the public report writer (SetReportWriter) receives every
 // StatReport; size = ReqsPerSecond*60, Drops, Average*size = sum of the
-// durations (ms), Top99p9th = largest duration (reports of < 100 tasks). In
-// half of the cases the Metrics value is built the way NewMetrics builds it
+// durations (ms), Top99p9th = largest duration (reports of < 1000 tasks). In
+// half of the instances the Metrics value is built the way NewMetrics builds it
 // but with a recording wrapper around the metricsContainer, which also shows
 // WHICH tasks every Execute received (tasks carry their id in Description).
+//
+// A case runs 1..3 Metrics instances in one process (every api/rpc server owns
+// several) behind ONE report writer (the writer is process-wide). The writer may
+// return an error for chosen reports (the instance stays fully judged) or PANIC on
+// chosen reports of chosen instances: an instance whose own report made the writer
+// panic is damaged by construction (on the tick path the panic kills its flusher,
+// threading.GoSafe swallows it) and is not judged; every OTHER instance is an
+// executor whose execute function never failed, so the statement applies to it in
+// full: all its tasks and drops are reported exactly once, its Wait returns.
 //
 // metricsContainer.RemoveAll returns a struct, so the executor's hasTasks is
 // always true and the background flusher never retires: the leak verdict at
 // bubble exit is expected residue and ignored; hangs and panics are judged.
+//
+// A goroutine blocked on a sync.Mutex is not durably blocked for synctest: if a
+// flusher waits for ever for a process-wide lock the bubble's clock stops and the
+// case never ends. c16sRun therefore runs the bubble in its own goroutine and
+// reports "wedged" when the case has not ended after c16sWedgeAfter of real time
+// AND a control measurement shows that the process is idle (no CPU used, no thread
+// waiting for a CPU) - a slow or starved machine fails the control and is left
+// alone. After a wedge the process-wide state of the package is unusable: later
+// cases of the process are not run (so a wedge replay is not shrunk).
 
 import (
+	"bytes"
+	"errors"
 	"fmt"
 	"math"
 	"os"
+	"path/filepath"
 	"runtime"
 	"sort"
 	"strconv"
+	"strings"
 	"sync"
+	"syscall"
 	"testing"
 	"time"
 
@@ -46,15 +69,40 @@ func init() {
 type c16sEv struct {
 	G   int    `json:"g"`
 	Gap int    `json:"d,omitempty"`  // quarter intervals (15 s) since the previous event of the timeline
-	K   string `json:"k"`            // add | drop | flush
+	K   string `json:"k"`            // add | drop | dropd | flush | name
 	Us  int    `json:"us,omitempty"` // add: duration in microseconds
 	Y   int    `json:"y,omitempty"`
+	M   int    `json:"m,omitempty"` // instance
+	N   int    `json:"n,omitempty"` // add: burst of N adds back to back (durations Us, Us+1, ... microseconds)
+}
+
+// c16sInst: one Metrics instance of the case.
+type c16sInst struct {
+	W bool `json:"w,omitempty"` // true: recording wrapper around metricsContainer; false: NewMetrics as is
+	// P: ordinals (0-based, counted per instance) of the reports of THIS instance on which the
+	// process-wide writer panics; PK: panic value (0 string, 1 error, 2 runtime error, 3 int)
+	P  []int `json:"p,omitempty"`
+	PK int   `json:"pk,omitempty"`
+	// E: ordinals of the reports of this instance for which the writer returns an error
+	// (after it has taken the report)
+	E []int `json:"e,omitempty"`
 }
 
 type c16sCase struct {
-	W  bool     `json:"w,omitempty"` // true: recording wrapper around metricsContainer; false: NewMetrics as is
-	Ev []c16sEv `json:"ev"`
+	W   bool       `json:"w,omitempty"` // single instance (In empty): its W
+	Ev  []c16sEv   `json:"ev"`
+	In  []c16sInst `json:"in,omitempty"`
+	Log bool       `json:"log,omitempty"` // the stat log line is enabled (the package default; logx itself stays silent)
 }
+
+func (c c16sCase) insts() []c16sInst {
+	if len(c.In) == 0 {
+		return []c16sInst{{W: c.W}}
+	}
+	return c.In
+}
+
+const c16sIDMod = 1000 // task id = event index + c16sIDMod * position in the burst
 
 type c16sPair struct {
 	ids   []int
@@ -68,7 +116,6 @@ type c16sWrap struct {
 	inner *metricsContainer
 	mu    sync.Mutex
 	cur   *c16sPair
-	rec   *c16sRecorder
 }
 
 func (w *c16sWrap) AddTask(v any) bool { return w.inner.AddTask(v) }
@@ -96,50 +143,244 @@ type c16sReport struct {
 	at   time.Duration
 }
 
-type c16sRecorder struct {
-	mu      sync.Mutex
-	reports []c16sReport
+// c16sLive: an instance at run time
+type c16sLive struct {
+	spec    c16sInst
+	m       *Metrics
 	wrap    *c16sWrap
-	t0      time.Time
+	reports []c16sReport
+	writes  int // Write calls for this instance (ordinal of the next report)
+	panics  int // ... on which the writer panicked
+	errs    int
 }
 
+type c16sRecorder struct {
+	mu      sync.Mutex
+	inst    []*c16sLive
+	t0      time.Time
+	foreign []string
+}
+
+type c16sRuntimeErr struct{ m map[int]int }
+
+func c16sHas(xs []int, x int) bool {
+	for _, v := range xs {
+		if v == x {
+			return true
+		}
+	}
+	return false
+}
+
+// Write is the process-wide report writer: routes the report to its instance by name
+// ("c16-<k>" or, after SetName, "c16-<k>-r<event>").
 func (r *c16sRecorder) Write(report *StatReport) error {
 	r.mu.Lock()
-	defer r.mu.Unlock()
-	e := c16sReport{r: *report, at: time.Since(r.t0)}
-	if r.wrap != nil {
-		e.pair = r.wrap.cur
+	k := -1
+	if strings.HasPrefix(report.Name, "c16-") {
+		s := report.Name[4:]
+		if i := strings.IndexByte(s, '-'); i >= 0 {
+			s = s[:i]
+		}
+		if n, err := strconv.Atoi(s); err == nil && n >= 0 && n < len(r.inst) {
+			k = n
+		}
 	}
-	r.reports = append(r.reports, e)
-	return nil
+	if k < 0 {
+		r.foreign = append(r.foreign, report.Name)
+		r.mu.Unlock()
+		return nil
+	}
+	in := r.inst[k]
+	ord := in.writes
+	in.writes++
+	if c16sHas(in.spec.P, ord) {
+		in.panics++
+		r.mu.Unlock()
+		switch in.spec.PK {
+		case 1:
+			panic(errors.New("c16: the report writer cannot handle this report"))
+		case 2:
+			var e c16sRuntimeErr
+			e.m[ord] = 1 // assignment to entry in nil map: runtime.Error
+		case 3:
+			panic(16)
+		}
+		panic("c16: the report writer cannot handle this report")
+	}
+	e := c16sReport{r: *report, at: time.Since(r.t0)}
+	if in.wrap != nil {
+		e.pair = in.wrap.cur
+	}
+	in.reports = append(in.reports, e)
+	var err error
+	if c16sHas(in.spec.E, ord) {
+		in.errs++
+		err = fmt.Errorf("c16: report %d of instance %d could not be delivered", ord, k)
+	}
+	r.mu.Unlock()
+	return err
 }
 
 func c16sSize(r StatReport) int {
 	return int(math.Round(float64(r.ReqsPerSecond) * float64(logInterval/time.Second)))
 }
 
-func c16sInterp(t *testing.T, c c16sCase) (v kit.Verdict) {
+// ---------------------------------------------------------------- wedge control (see the file comment)
+
+var (
+	c16sWedgeAfter = 3 * time.Second
+	c16sWedged     bool // a case of this process wedged: process-wide package state is stuck
+)
+
+func c16sCPU() time.Duration {
+	var ru syscall.Rusage
+	if err := syscall.Getrusage(syscall.RUSAGE_SELF, &ru); err != nil {
+		return -1
+	}
+	return time.Duration(ru.Utime.Nano() + ru.Stime.Nano())
+}
+
+// c16sRunDelay: time the threads of the process spent runnable but waiting for a CPU
+func c16sRunDelay() (d time.Duration, ok bool) {
+	files, _ := filepath.Glob("/proc/self/task/*/schedstat")
+	for _, f := range files {
+		b, err := os.ReadFile(f)
+		if err != nil {
+			continue
+		}
+		fs := bytes.Fields(b)
+		if len(fs) < 2 {
+			continue
+		}
+		n, err := strconv.ParseInt(string(fs[1]), 10, 64)
+		if err != nil {
+			continue
+		}
+		d += time.Duration(n)
+		ok = true
+	}
+	return d, ok
+}
+
+// c16sQuiet observes the process for d: true if it neither used CPU nor had threads waiting for one.
+func c16sQuiet(d time.Duration) bool {
+	c0 := c16sCPU()
+	r0, rok := c16sRunDelay()
+	time.Sleep(d)
+	c1 := c16sCPU()
+	r1, _ := c16sRunDelay()
+	if c0 < 0 || c1 < 0 || c1-c0 > 20*time.Millisecond {
+		return false
+	}
+	if rok && r1-r0 > 100*time.Millisecond {
+		return false
+	}
+	return true
+}
+
+type c16sOut struct {
+	v    kit.Verdict
+	fail string
+	res  kit.BubbleResult
+}
+
+func c16sInterp(t *testing.T, c c16sCase) kit.Verdict {
+	if c16sWedged {
+		return kit.Verdict{Excluded: true, Classes: []string{"not-run (an earlier case of this process wedged the package)"}}
+	}
+	done := make(chan c16sOut, 1)
+	go func() {
+		returned := false
+		defer func() {
+			if !returned {
+				done <- c16sOut{fail: "the synctest sub-test was aborted (see the log)"}
+			}
+		}()
+		o := c16sRun(t, c)
+		returned = true
+		done <- o
+	}()
+	var o c16sOut
+	timer := time.NewTimer(c16sWedgeAfter)
+	defer timer.Stop()
+wait:
+	for {
+		select {
+		case o = <-done:
+			break wait
+		case <-timer.C:
+			// not finished after seconds of real time (a case needs milliseconds): wedged, or a stalled machine?
+			quiet := 0
+			for quiet < 2 {
+				if c16sQuiet(1500 * time.Millisecond) {
+					quiet++
+				} else {
+					quiet = 0
+				}
+				select {
+				case o = <-done:
+					break wait
+				default:
+				}
+			}
+			c16sWedged = true
+			n := len(c.insts())
+			return kit.Verdict{Classes: []string{"wedged"},
+				Fail: fmt.Sprintf("wedged: the case (%d Metrics instances behind one report writer) did not end although the process is idle: "+
+					"a goroutine (a background flusher inside its tick flush, or the final Wait) waits for ever for a sync.Mutex that nothing will release, "+
+					"so the tasks of an instance whose own reports never failed are never executed/reported (virtual time cannot advance; synctest does not see mutex waits)", n)}
+		}
+	}
+	v := o.v
+	switch {
+	case o.fail != "":
+		v.Fail = o.fail
+	case o.res.Hang:
+		v.Fail = "hang: " + o.res.Raw
+	case o.res.Panic != "":
+		v.Fail = "panic: " + o.res.Panic
+	}
+	// res.Leak: expected residue (the Metrics flusher never retires)
+	return v
+}
+
+func c16sRun(t *testing.T, c c16sCase) (out c16sOut) {
 	cl := map[string]bool{}
 	var fail string
+	var fmu sync.Mutex
 	failf := func(format string, a ...any) {
+		fmu.Lock()
 		if fail == "" {
 			fail = fmt.Sprintf(format, a...)
 		}
+		fmu.Unlock()
 	}
 	U := logInterval / 4
-	res := kit.Bubble(t, func() {
+	specs := c.insts()
+	v := &out.v
+	out.res = kit.Bubble(t, func() {
 		rec := &c16sRecorder{t0: time.Now()}
-		var m *Metrics
-		if c.W {
-			container := &metricsContainer{name: "c16", pid: os.Getpid()}
-			w := &c16sWrap{inner: container, rec: rec}
-			rec.wrap = w
-			m = &Metrics{executor: executors.NewPeriodicalExecutor(logInterval, w), container: container}
-			cl["wrapped-container"] = true
-		} else {
-			m = NewMetrics("c16")
-			cl["NewMetrics"] = true
+		logEnabled.Set(c.Log)
+		defer logEnabled.Set(false)
+		if c.Log {
+			cl["stat-log-enabled"] = true
 		}
+		for k, sp := range specs {
+			in := &c16sLive{spec: sp}
+			name := "c16-" + strconv.Itoa(k)
+			if sp.W {
+				container := &metricsContainer{name: name, pid: os.Getpid()}
+				in.wrap = &c16sWrap{inner: container}
+				in.m = &Metrics{executor: executors.NewPeriodicalExecutor(logInterval, in.wrap), container: container}
+				cl["wrapped-container"] = true
+			} else {
+				in.m = NewMetrics(name)
+				cl["NewMetrics"] = true
+			}
+			rec.inst = append(rec.inst, in)
+		}
+		cl["instances:"+strconv.Itoa(len(specs))] = true
 		SetReportWriter(rec)
 		defer SetReportWriter(nil)
 
@@ -153,6 +394,7 @@ func c16sInterp(t *testing.T, c c16sCase) (v kit.Verdict) {
 				ng = e.G + 1
 			}
 		}
+		callerPanics := 0
 		var wg sync.WaitGroup
 		for g := 0; g < ng; g++ {
 			wg.Add(1)
@@ -169,15 +411,33 @@ func c16sInterp(t *testing.T, c c16sCase) (v kit.Verdict) {
 					for y := 0; y < e.Y; y++ {
 						runtime.Gosched()
 					}
+					m := rec.inst[e.M%len(rec.inst)].m
 					switch e.K {
 					case "add":
-						m.Add(Task{Duration: time.Duration(e.Us) * time.Microsecond, Description: strconv.Itoa(i)})
+						n := e.N
+						if n < 1 {
+							n = 1
+						}
+						for k := 0; k < n; k++ {
+							m.Add(Task{Duration: time.Duration(e.Us+k) * time.Microsecond, Description: strconv.Itoa(i + k*c16sIDMod)})
+						}
 					case "drop":
 						m.AddDrop()
 					case "dropd": // a drop handed over through Add, with a duration that must not be counted
 						m.Add(Task{Drop: true, Duration: time.Duration(e.Us) * time.Microsecond, Description: strconv.Itoa(i)})
+					case "name":
+						m.SetName(fmt.Sprintf("c16-%d-r%d", e.M%len(rec.inst), i))
 					case "flush":
-						m.executor.Flush()
+						func() {
+							defer func() { // a panic of the writer reaches the caller of Flush
+								if r := recover(); r != nil {
+									fmu.Lock()
+									callerPanics++
+									fmu.Unlock()
+								}
+							}()
+							m.executor.Flush()
+						}()
 					}
 				}
 			}()
@@ -190,123 +450,225 @@ func c16sInterp(t *testing.T, c c16sCase) (v kit.Verdict) {
 			failf("operations did not return within the virtual horizon")
 			return
 		}
-		m.executor.Wait()
+		for _, in := range rec.inst {
+			func() {
+				defer func() {
+					if r := recover(); r != nil {
+						fmu.Lock()
+						callerPanics++
+						fmu.Unlock()
+					}
+				}()
+				in.m.executor.Wait()
+			}()
+		}
 
-		// ---- oracle over the whole history
+		// ---- oracle over the whole history, instance by instance
 		judge := func(when string) {
 			rec.mu.Lock()
 			defer rec.mu.Unlock()
-			adds, drops := 0, 0
-			var sumUs, maxUs int
-			for _, e := range c.Ev {
-				switch e.K {
-				case "add":
-					adds++
-					sumUs += e.Us
-					if e.Us > maxUs {
-						maxUs = e.Us
-					}
-				case "drop", "dropd":
-					drops++
-					if e.K == "dropd" {
-						cl["drop-with-duration"] = true
-					}
-				}
+			if len(rec.foreign) > 0 {
+				failf("%s: reports with names no instance of the case ever had: %q", when, rec.foreign)
 			}
-			gotAdds, gotDrops, nonEmpty := 0, 0, 0
-			var gotSumMs float64
-			var gotMax float32
-			seen := map[int]int{}
-			for ri, e := range rec.reports {
-				size := c16sSize(e.r)
-				gotAdds += size
-				gotDrops += e.r.Drops
-				gotSumMs += float64(e.r.Average) * float64(size)
-				if e.r.Top99p9th > gotMax {
-					gotMax = e.r.Top99p9th
+			totalPanics := 0
+			for _, in := range rec.inst {
+				totalPanics += in.panics
+			}
+			nontrivial := false
+			for k, in := range rec.inst {
+				if in.errs > 0 {
+					cl["writer-error"] = true
 				}
-				if size > 0 || e.r.Drops > 0 {
-					nonEmpty++
+				if in.panics > 0 {
+					// its own report made the writer panic: damaged by construction, not judged
+					cl["faulty-instance (own report panicked, not judged)"] = true
+					continue
 				}
-				if e.r.Drops < 0 || size < 0 {
-					failf("%s: report %d has negative counts: %+v", when, ri, e.r)
+				if totalPanics > 0 {
+					cl["healthy-instance-judged-after-foreign-writer-panic"] = true
 				}
-				if c.W {
-					p := e.pair
-					if p == nil {
-						failf("%s: report %d written outside Execute", when, ri)
+				who := ""
+				if len(rec.inst) > 1 {
+					who = fmt.Sprintf("instance %d of %d", k, len(rec.inst))
+					if totalPanics > 0 {
+						who += fmt.Sprintf(" (its own reports never failed; the writer panicked %d times on reports of other instances)", totalPanics)
+					}
+					who += ": "
+				}
+				adds, drops := 0, 0
+				var sumUs, maxUs int
+				for _, e := range c.Ev {
+					if e.M%len(rec.inst) != k {
 						continue
 					}
-					for _, id := range p.ids {
-						seen[id]++
-						if seen[id] > 1 {
-							failf("%s: task %d was handed to Execute more than once (report %d at %v)", when, id, ri, e.at)
+					switch e.K {
+					case "add":
+						n := e.N
+						if n < 1 {
+							n = 1
 						}
-						if id < 0 || id >= len(c.Ev) || c.Ev[id].K != "add" {
-							failf("%s: report %d holds task %d that was never added", when, ri, id)
+						adds += n
+						sumUs += n*e.Us + n*(n-1)/2
+						if e.Us+n-1 > maxUs {
+							maxUs = e.Us + n - 1
 						}
+					case "drop", "dropd":
+						drops++
+						if e.K == "dropd" {
+							cl["drop-with-duration"] = true
+						}
+					case "name":
+						cl["SetName"] = true
 					}
-					// the report must describe exactly the batch that Execute received
-					var sum time.Duration
-					var mx time.Duration
-					for k, id := range p.ids {
-						if id >= 0 && id < len(c.Ev) && p.durs[k] != time.Duration(c.Ev[id].Us)*time.Microsecond {
-							failf("%s: task %d reached Execute with duration %v, added with %dus", when, id, p.durs[k], c.Ev[id].Us)
-						}
-						sum += p.durs[k]
-						if p.durs[k] > mx {
-							mx = p.durs[k]
-						}
+				}
+				durOf := func(id int) (time.Duration, bool) {
+					i, pos := id%c16sIDMod, id/c16sIDMod
+					if id < 0 || i >= len(c.Ev) || c.Ev[i].K != "add" || c.Ev[i].M%len(rec.inst) != k {
+						return 0, false
 					}
-					if size != len(p.ids) || e.r.Drops != p.drops {
-						failf("%s: report %d says %d tasks / %d drops, Execute received %d tasks / %d drops", when, ri, size, e.r.Drops, len(p.ids), p.drops)
+					n := c.Ev[i].N
+					if n < 1 {
+						n = 1
 					}
-					if p.sum != sum {
-						failf("%s: report %d: batch duration %v handed to Execute, its tasks sum up to %v", when, ri, p.sum, sum)
+					if pos >= n {
+						return 0, false
 					}
-					if len(p.ids) > 0 {
-						if want := float32(sum/time.Millisecond) / float32(len(p.ids)); e.r.Average != want {
-							failf("%s: report %d: Average %v, tasks give %v", when, ri, e.r.Average, want)
+					return time.Duration(c.Ev[i].Us+pos) * time.Microsecond, true
+				}
+				gotAdds, gotDrops, nonEmpty := 0, 0, 0
+				var gotSumMs float64
+				var gotMax float32
+				big := false // a report of >= 1000 tasks: Top99p9th is no longer the largest duration
+				seen := map[int]int{}
+				for ri, e := range in.reports {
+					size := c16sSize(e.r)
+					gotAdds += size
+					gotDrops += e.r.Drops
+					gotSumMs += float64(e.r.Average) * float64(size)
+					if e.r.Top99p9th > gotMax {
+						gotMax = e.r.Top99p9th
+					}
+					if size > 0 || e.r.Drops > 0 {
+						nonEmpty++
+					}
+					if size >= 100 {
+						cl["report>=100-tasks"] = true
+					}
+					if size >= 1000 {
+						cl["report>=1000-tasks"] = true
+						big = true
+					}
+					if e.r.Drops < 0 || size < 0 {
+						failf("%s: %sreport %d has negative counts: %+v", when, who, ri, e.r)
+					}
+					if in.wrap != nil {
+						p := e.pair
+						if p == nil {
+							failf("%s: %sreport %d written outside Execute", when, who, ri)
+							continue
 						}
-						if want := float32(mx) / float32(time.Millisecond); e.r.Top99p9th != want {
-							failf("%s: report %d: Top99p9th %v, largest task %v", when, ri, e.r.Top99p9th, want)
+						lastOfG := map[int]int{}
+						for _, id := range p.ids {
+							seen[id]++
+							if seen[id] > 1 {
+								failf("%s: %stask %d was handed to Execute more than once (report %d at %v)", when, who, id, ri, e.at)
+							}
+							if _, ok := durOf(id); !ok {
+								failf("%s: %sreport %d holds task %d that was never added to this instance", when, who, ri, id)
+								continue
+							}
+							// inside a batch the tasks of one adder are in the order they were added
+							// (an adder's events are in index order, a burst in position order)
+							g := c.Ev[id%c16sIDMod].G
+							key := (id%c16sIDMod)*10000 + id/c16sIDMod
+							if last, ok := lastOfG[g]; ok && key < last {
+								failf("%s: %sreport %d: the batch handed to Execute holds the tasks of goroutine %d out of addition order (task %d after task %d): %v",
+									when, who, ri, g, id, (last/10000)+(last%10000)*c16sIDMod, c16sHead(p.ids))
+							}
+							lastOfG[g] = key
+						}
+						// the report must describe exactly the batch that Execute received
+						var sum time.Duration
+						var mx time.Duration
+						for j, id := range p.ids {
+							if d, ok := durOf(id); ok && p.durs[j] != d {
+								failf("%s: %stask %d reached Execute with duration %v, added with %v", when, who, id, p.durs[j], d)
+							}
+							sum += p.durs[j]
+							if p.durs[j] > mx {
+								mx = p.durs[j]
+							}
+						}
+						if size != len(p.ids) || e.r.Drops != p.drops {
+							failf("%s: %sreport %d says %d tasks / %d drops, Execute received %d tasks / %d drops", when, who, ri, size, e.r.Drops, len(p.ids), p.drops)
+						}
+						if p.sum != sum {
+							failf("%s: %sreport %d: batch duration %v handed to Execute, its tasks sum up to %v", when, who, ri, p.sum, sum)
+						}
+						if len(p.ids) > 0 {
+							if want := float32(sum/time.Millisecond) / float32(len(p.ids)); e.r.Average != want {
+								failf("%s: %sreport %d: Average %v, tasks give %v", when, who, ri, e.r.Average, want)
+							}
+							if want := float32(mx) / float32(time.Millisecond); len(p.ids) < 1000 && e.r.Top99p9th != want {
+								failf("%s: %sreport %d: Top99p9th %v, largest task %v", when, who, ri, e.r.Top99p9th, want)
+							}
 						}
 					}
 				}
-			}
-			if gotAdds != adds {
-				failf("%s: %d tasks were added, the reports account for %d (%d reports)", when, adds, gotAdds, len(rec.reports))
-			}
-			if gotDrops != drops {
-				failf("%s: %d drops were added, the reports account for %d (%d reports: %s)", when, drops, gotDrops, len(rec.reports), c16sDrops(rec.reports))
-			}
-			if c.W {
-				for i, e := range c.Ev {
-					if e.K == "add" && seen[i] != 1 {
-						failf("%s: task %d was handed to Execute %d times", when, i, seen[i])
+				if gotAdds != adds {
+					failf("%s: %s%d tasks were added, the reports account for %d (%d reports)", when, who, adds, gotAdds, len(in.reports))
+				}
+				if gotDrops != drops {
+					failf("%s: %s%d drops were added, the reports account for %d (%d reports: %s)", when, who, drops, gotDrops, len(in.reports), c16sDrops(in.reports))
+				}
+				if in.wrap != nil {
+					for i, e := range c.Ev {
+						if e.K != "add" || e.M%len(rec.inst) != k {
+							continue
+						}
+						n := e.N
+						if n < 1 {
+							n = 1
+						}
+						for pos := 0; pos < n; pos++ {
+							if id := i + pos*c16sIDMod; seen[id] != 1 {
+								failf("%s: %stask %d was handed to Execute %d times", when, who, id, seen[id])
+							}
+						}
 					}
 				}
-			}
-			// every non-empty report truncates its duration sum to whole milliseconds
-			wantMs := float64(sumUs) / 1000
-			if tol := float64(nonEmpty)*1.001 + 1e-5*wantMs; gotSumMs > wantMs+tol || gotSumMs < wantMs-tol {
-				failf("%s: durations add up to %.3fms, the reports (Average*size) account for %.3fms", when, wantMs, gotSumMs)
-			}
-			if adds > 0 {
-				if want := float32(time.Duration(maxUs)*time.Microsecond) / float32(time.Millisecond); gotMax != want {
-					failf("%s: largest duration %v ms, largest Top99p9th of all reports %v", when, want, gotMax)
+				// every non-empty report truncates its duration sum to whole milliseconds
+				wantMs := float64(sumUs) / 1000
+				if tol := float64(nonEmpty)*1.001 + 1e-5*wantMs; gotSumMs > wantMs+tol || gotSumMs < wantMs-tol {
+					failf("%s: %sdurations add up to %.3fms, the reports (Average*size) account for %.3fms", when, who, wantMs, gotSumMs)
+				}
+				if adds > 0 && !big {
+					if want := float32(time.Duration(maxUs)*time.Microsecond) / float32(time.Millisecond); gotMax != want {
+						failf("%s: %slargest duration %v ms, largest Top99p9th of all reports %v", when, who, want, gotMax)
+					}
+				}
+				if nonEmpty >= 2 {
+					cl["2+non-empty-reports"] = true
+				}
+				if drops > 0 {
+					cl["drops"] = true
+				}
+				if adds > 0 {
+					cl["adds"] = true
+				}
+				if nonEmpty >= 2 && drops > 0 && adds > 0 {
+					nontrivial = true
 				}
 			}
-			if nonEmpty >= 2 {
-				cl["2+non-empty-reports"] = true
+			fmu.Lock()
+			if callerPanics > 0 {
+				cl["writer-panic-reached-caller-of-Flush/Wait"] = true
 			}
-			if drops > 0 {
-				cl["drops"] = true
+			if totalPanics > callerPanics {
+				cl["writer-panic-in-background-flusher"] = true
 			}
-			if adds > 0 {
-				cl["adds"] = true
-			}
-			v.NonTrivial = nonEmpty >= 2 && drops > 0 && adds > 0
+			fmu.Unlock()
+			v.NonTrivial = nontrivial
 		}
 		judge("after the final Wait")
 		// nothing may be reported again later: two and a half more periods
@@ -317,16 +679,15 @@ func c16sInterp(t *testing.T, c c16sCase) (v kit.Verdict) {
 		v.Classes = append(v.Classes, k)
 	}
 	sort.Strings(v.Classes)
-	switch {
-	case fail != "":
-		v.Fail = fail
-	case res.Hang:
-		v.Fail = "hang: " + res.Raw
-	case res.Panic != "":
-		v.Fail = "panic: " + res.Panic
+	out.fail = fail
+	return out
+}
+
+func c16sHead(ids []int) []int {
+	if len(ids) > 24 {
+		return ids[:24]
 	}
-	// res.Leak: expected residue (the Metrics flusher never retires)
-	return v
+	return ids
 }
 
 func c16sDrops(rs []c16sReport) string {
@@ -337,13 +698,53 @@ func c16sDrops(rs []c16sReport) string {
 	return s
 }
 
+func c16sOrdinals(rt *rapid.T, label string) []int {
+	var out []int
+	switch rapid.IntRange(0, 3).Draw(rt, label+"shape") {
+	case 0: // one early report
+		out = []int{rapid.IntRange(0, 3).Draw(rt, label)}
+	case 1: // two reports
+		a := rapid.IntRange(0, 3).Draw(rt, label)
+		out = []int{a, a + rapid.IntRange(1, 3).Draw(rt, label+"2")}
+	case 2: // every report from some point on
+		a := rapid.IntRange(0, 3).Draw(rt, label)
+		for k := a; k < a+40; k++ {
+			out = append(out, k)
+		}
+	default: // a later one
+		out = []int{rapid.IntRange(2, 8).Draw(rt, label)}
+	}
+	return out
+}
+
 func c16sGen(rt *rapid.T) c16sCase {
-	c := c16sCase{W: rapid.Bool().Draw(rt, "w")}
+	c := c16sCase{}
+	ni := []int{1, 1, 2, 2, 2, 3}[rapid.IntRange(0, 5).Draw(rt, "ni")]
+	faulty := ni > 1 && rapid.IntRange(0, 1).Draw(rt, "faulty") == 0
+	for k := 0; k < ni; k++ {
+		in := c16sInst{W: rapid.Bool().Draw(rt, "w")}
+		if faulty && (k == 0 || (ni == 3 && k == 1 && rapid.IntRange(0, 3).Draw(rt, "second") == 0)) {
+			in.P = c16sOrdinals(rt, "p")
+			in.PK = rapid.IntRange(0, 3).Draw(rt, "pk")
+		}
+		if rapid.IntRange(0, 4).Draw(rt, "errs") == 0 {
+			in.E = c16sOrdinals(rt, "e")
+		}
+		c.In = append(c.In, in)
+	}
+	if faulty && rapid.Bool().Draw(rt, "rot") { // the faulty instance is not always the first one created
+		c.In[0], c.In[ni-1] = c.In[ni-1], c.In[0]
+	}
+	c.Log = rapid.IntRange(0, 2).Draw(rt, "log") == 0
 	ng := rapid.IntRange(1, 4).Draw(rt, "ng")
 	n := rapid.IntRange(1, 40).Draw(rt, "nev")
+	bursts := rapid.IntRange(0, 11).Draw(rt, "bursts") == 0
 	for i := 0; i < n; i++ {
 		e := c16sEv{G: rapid.IntRange(0, ng-1).Draw(rt, "g")}
-		e.K = rapid.SampledFrom([]string{"add", "add", "add", "add", "drop", "drop", "dropd", "flush"}).Draw(rt, "k")
+		if ni > 1 {
+			e.M = rapid.IntRange(0, ni-1).Draw(rt, "m")
+		}
+		e.K = rapid.SampledFrom([]string{"add", "add", "add", "add", "add", "add", "add", "add", "drop", "drop", "drop", "drop", "dropd", "dropd", "flush", "flush", "name"}).Draw(rt, "k")
 		switch rapid.IntRange(0, 9).Draw(rt, "gapclass") {
 		case 0, 1, 2, 3, 4:
 		case 5, 6:
@@ -359,6 +760,10 @@ func c16sGen(rt *rapid.T) c16sCase {
 			} else {
 				e.Us = rapid.IntRange(0, 5_000_000).Draw(rt, "us")
 			}
+		}
+		if e.K == "add" && bursts && rapid.IntRange(0, 4).Draw(rt, "burst") == 0 {
+			// reports of 100+ / 1000+ tasks (the percentile branches of Execute)
+			e.N = rapid.SampledFrom([]int{99, 100, 101, 199, 200, 640, 999, 1000, 1001, 1999, 2000, 2500}).Draw(rt, "n")
 		}
 		e.Y = rapid.SampledFrom([]int{0, 0, 0, 1, 2}).Draw(rt, "y")
 		c.Ev = append(c.Ev, e)
